@@ -62,6 +62,17 @@ def plan(ctx):
         trig = (r"DELETE,ISDIR .*/ck/\d+$", 1) if i % 4 < 2 else (r"DELETE.* .*/ck/\d+/", rng.randint(1, 10))
         out.append({"case": c, "mode": "inotify", "param": trig, "f": f, "m": 8, "async": i % 2 == 0, "rounds": 1, "seed": sub,
                     "total": f * rng.choice([1, 2]), "directed": "final-save-repeats-committed-step"})
+    # directed: a write that lands in the FINAL step directory.  Orbax's protocol writes into <step>.orbax-checkpoint-tmp and
+    # renames; a directory <step> that is CREATED (not moved into place), or a file created inside a step directory, means the
+    # writer is filling the final name in place, where a reader in rename mode takes it for a finished checkpoint.  The child is
+    # killed at that moment (never, on a tree that only renames finished directories into place); synchronous and asynchronous
+    for i in range(6 if quick else 60):
+        sub = ctx.rng.randrange(10 ** 9)
+        rng = random.Random(sub)
+        c = gen_case(rng, ["vi", "rvi", "pvi", "savi", "pi"][i % 5])
+        trig = (r"CREATE,ISDIR .*/ck/\d+$", rng.randint(2, 5)) if i % 3 == 0 else (r"CREATE .*/ck/\d+/", rng.randint(1, 8) + 12 * rng.randint(0, 2))
+        out.append({"case": c, "mode": "inotify", "param": trig, "f": 1, "m": rng.choice([1, 2, 3]), "async": i % 3 == 2, "rounds": 1, "seed": sub,
+                    "directed": "write-lands-in-final-step-directory"})
     return out
 
 
